@@ -405,6 +405,8 @@ impl<'a> Reader for ProtobufReader<'a> {
 
     #[inline]
     fn read_null<C: null::Constraint>(&mut self) -> Result<Null, Self::Error> {
+        // nothing is read, but the component occupies its field number in the generated schema
+        self.increment_tag_counter();
         Ok(Null)
     }
 }
